@@ -11,13 +11,16 @@ STRUCT_RULE = (
     "histories).  A case = one executed operation; its signature = (unlabelled ordered-forest shape before the op with the "
     "op's arguments marked, op kind/argument flavour, fired faults (hook kind@position, exception), outcome class). "
     "distinct_nontrivial counts distinct signatures; all signatures are kept (ops with no hook event and no exception are "
-    "counted separately in probes.noop_or_silent)."
+    "counted separately in probes.noop_or_silent).  In half of the runs the simulated hook overrides also call the library's "
+    "own hook implementation (super()); 15% of the C01/C02/C03/C16 universes use node names with formatting metacharacters."
 )
 
 ASSUME_STRUCT = [
     "only hook-raised exceptions and invalid arguments are injected (the properties' quantifier); no asynchronous exceptions, "
-    "no concurrent callers, no hooks that mutate the tree",
-    "forests never mix NodeMixin- and LightNodeMixin-based nodes",
+    "no concurrent callers; hooks that change the tree themselves only inside an envelope in which no implementation can be "
+    "fooled (a node of an unrelated tree is moved or detached; C01, C02, C18 only)",
+    "universes hold nodes of one mixin only, except 5% of C01's, which mix NodeMixin- and LightNodeMixin-based nodes (the "
+    "library refuses to link across the two; only the invariant is judged there)",
     "seeded sampling: a clean batch is evidence, not proof",
 ]
 
@@ -185,8 +188,12 @@ EXPORT_RULE = (
     "a run = one exporter object over a seeded tree (1..12 nodes; names with quotes, backslashes, spaces, newlines, "
     "non-ASCII and collisions), a drawn stop set, filtered-out set, maxlevel in {None,0..4,n+2}, options/indent/graph/name "
     "and custom name/attribute/edge functions, iterated in 1-4 sessions of 1-3 interleaved cursors (the scheduler picks "
-    "which cursor advances) with re-parenting, renames and new nodes between sessions.  A case = one exhausted cursor "
-    "judged against the admitted sub-forest.  Signature = (exporter kind, tree shape with filtered/stopped nodes marked, "
+    "which cursor advances) with re-parenting (in 30% of the runs a raising hook may abort the move: faults_fired), renames, "
+    "new nodes, nodes that are dropped and really freed, changed filter/stop sets and changed exporter settings between "
+    "sessions; in a quarter of the runs iterations of the exporter or of PreOrderIter are started and abandoned half-way "
+    "(fault_abandoned_iteration), and user callables may themselves traverse the tree.  Universes: Node with hook routing, "
+    "Node as shipped, SymlinkNode links (a link answers `name` with its target's), or a LightNodeMixin class.  Any exception "
+    "out of the exporter is a violation.  A case = one exhausted cursor judged against the admitted sub-forest.  Signature = (exporter kind, tree shape with filtered/stopped nodes marked, "
     "maxlevel, which custom functions are set, size class); distinct_nontrivial counts distinct signatures."
 )
 register(
@@ -197,8 +204,8 @@ register(
     level="exploration",
     title="DOT export declares exactly the admitted nodes and only edges between them",
     rule=EXPORT_RULE,
-    assumptions=["nodes stay alive for the whole run (identifiers are keyed by id(); reuse of a dead node's id is outside the statement)", "seeded sampling: a clean batch is evidence, not proof"],
-    components={"real": REAL, "stub": "none", "harness": "Node subclass, filter/stop/name/attribute callables"},
+    assumptions=["identifier stability is required for nodes that stay alive (identifiers are keyed by id(); a dropped node's identifier is forgotten by the judge, its id() may be reused)", "seeded sampling: a clean batch is evidence, not proof"],
+    components={"real": REAL, "stub": "none", "harness": "node subclasses with hook routing, filter/stop/name/attribute callables"},
 )
 register(
     "C13",
@@ -208,6 +215,6 @@ register(
     level="exploration",
     title="Mermaid export declares exactly the admitted nodes and only edges between them",
     rule=EXPORT_RULE + " to_file writes a real scratch file that is read back and removed.",
-    assumptions=["nodes stay alive for the whole run (identifiers are keyed by id())", "seeded sampling: a clean batch is evidence, not proof"],
-    components={"real": REAL, "stub": "none (to_file writes a real temporary file)", "harness": "Node subclass, filter/stop/name/node/edge callables"},
+    assumptions=["identifier stability is required for nodes that stay alive (identifiers are keyed by id(); a dropped node's identifier is forgotten by the judge)", "seeded sampling: a clean batch is evidence, not proof"],
+    components={"real": REAL, "stub": "none (to_file writes a real temporary file)", "harness": "node subclasses with hook routing, filter/stop/name/node/edge callables"},
 )
